@@ -9,6 +9,7 @@
 #include "spec.h"
 #include "ops.h"
 #include "jwt_memory_c.h"
+#include "base64_c.h"
 
 #ifdef VERIF_TU_JWT
 static int __check_hmac(jwt_t *jwt);
@@ -165,6 +166,29 @@ __CPROVER_ensures(__CPROVER_return_value == -1 || \
 __CPROVER_ensures(__CPROVER_return_value == -1 ==> *_dst == __CPROVER_old(*_dst)) \
 EXTRA
 DECL_jwt_base64uri_encode(contract_shape_jwt_base64uri_encode, );
+
+/* C11: the real base64url wrappers against shape + url-alphabet + length-gate clauses */
+extern size_t g_last_strlen;	/* ghost: result of the last strlen() (stubs/libc.c) */
+#define C11_DEC_CLAUSES \
+/* length 1 modulo 4 is rejected; the result is never longer than 3 bytes per 4 characters */ \
+__CPROVER_ensures(__CPROVER_return_value != NULL ==> (g_last_strlen % 4 != 1 && \
+	(size_t)*ret_len <= 3 * ((g_last_strlen + 3) / 4)))
+#define DECL_C11_jwt_base64uri_decode(NAME) \
+void *NAME(const char *src, int *ret_len) \
+__CPROVER_requires(src == NULL || __CPROVER_r_ok(src, 1)) \
+__CPROVER_requires(ret_len == NULL || __CPROVER_w_ok(ret_len, sizeof(*ret_len))) \
+__CPROVER_assigns(ret_len != NULL: *ret_len; g_last_strlen) \
+__CPROVER_ensures(__CPROVER_return_value == NULL || \
+	(src != NULL && ret_len != NULL && *ret_len >= 1 && *ret_len <= B64_MAXLEN && \
+	 __CPROVER_is_fresh(__CPROVER_return_value, (size_t)*ret_len + 1))) \
+C11_DEC_CLAUSES
+DECL_C11_jwt_base64uri_decode(contract_C11_jwt_base64uri_decode);
+#define C11_ENC_CLAUSES \
+/* unpadded, URL alphabet: no '=', '+' or '/' anywhere in the result (ghost index) */ \
+__CPROVER_ensures((__CPROVER_return_value > 0 && g_str_k < (size_t)__CPROVER_return_value) ==> \
+	((*_dst)[g_str_k] != '=' && (*_dst)[g_str_k] != '+' && (*_dst)[g_str_k] != '/')) \
+__CPROVER_ensures(__CPROVER_return_value >= 0 ==> __CPROVER_return_value == 4 * ((plain_len + 2) / 3))
+DECL_jwt_base64uri_encode(contract_C11_jwt_base64uri_encode, C11_ENC_CLAUSES);
 
 /* jwt_strcmp (jwt-memory.c), shape only */
 #define DECL_jwt_strcmp(NAME, EXTRA) \
